@@ -51,9 +51,27 @@ Definition dir_of (d : rdir) : directive :=
 
 Definition m_has_error (ds : list diag) : bool := existsb is_error ds.
 
+(* the model of a fill with an absurd count that is NOT refused would build the fill inside coqc: such a count
+   is only cooked; if cooking lets it through, the model's outcome is reported as not evaluable (= a crash) *)
+Definition guarded_emit (enc : list N -> option (list Z)) (d : directive) (addr : Z) : out :=
+  match d with
+  | DMeta name ops =>
+      if existsb (fun o => 1048576 <=? Z.abs (snd o)) ops
+         && (str_eqb name ".align" || str_eqb name ".blkb" || str_eqb name ".blkw")
+      then match find_meta name with
+           | Some m => match cook (m_params m) 0 (map snd ops) with
+                       | Ok _ => Crashed "fill too large to evaluate"
+                       | _ => emit enc d addr
+                       end
+           | None => emit enc d addr
+           end
+      else emit enc d addr
+  | _ => emit enc d addr
+  end.
+
 Definition corr_dir (enc : list N -> option (list Z)) (d : directive) (addr : Z) (ann : option (option Z)) (o : dir_obs) : bool :=
   match ann with Some a => optz_eqb (announced d) a | None => true end &&
-  match emit enc d addr, o with
+  match guarded_emit enc d addr, o with
   | Out ds bs, ROut ds' bs' => diags_eqb ds ds' && zs_eqb bs bs'
   | Raised ds, RRaised ds' => diags_eqb ds ds'
   | Out ds _, RFailed ds' => m_has_error ds && diags_eqb ds ds'
